@@ -16,6 +16,7 @@ C14.roundtrip interprets TimexInference.infer and TimexFormat.format over abstra
 (each field None / 0 / non-zero) built from every grammar shape and compares the emitted template with the input.
 """
 import ast
+import builtins
 import itertools
 import string
 
@@ -254,279 +255,6 @@ def load_patterns(cx):
     return c, fams
 
 
-def inline_expr(cls, e, local_defs, where, depth=0):
-    """copy of expression e with local names replaced by their defining expressions and calls to single-return
-    helpers of the same class (Cls.h(x) / self.h(x) / cls.h(x)) replaced by the helper's return expression"""
-    if depth > 6:
-        raise AnalysisError('%s: helper/local chain too deep' % where)
-
-    class T(ast.NodeTransformer):
-        def visit_Name(self, n):
-            if isinstance(n.ctx, ast.Load) and n.id in local_defs:
-                return inline_expr(cls, local_defs[n.id], {k: v for k, v in local_defs.items() if k != n.id}, where,
-                                   depth + 1)
-            return n
-
-        def visit_Call(self, n):
-            ch = chain(n.func) or ''
-            parts = ch.split('.')
-            if len(parts) == 2 and parts[0] in (cls.name, 'self', 'cls') and parts[1] in cls.methods:
-                fn = cls.methods[parts[1]]
-                body = [st for st in fn.body if not (isinstance(st, ast.Expr) and isinstance(st.value, ast.Constant))
-                        and not isinstance(st, ast.Pass)]
-                if len(body) != 1 or not isinstance(body[0], ast.Return) or body[0].value is None or n.keywords:
-                    raise AnalysisError('%s: helper %s.%s is not a single return expression' % (where, cls.name, parts[1]))
-                ps = [p for p in params_of(fn) if p not in ('self', 'cls')]
-                if len(ps) != len(n.args):
-                    raise AnalysisError('%s: arity of helper %s' % (where, parts[1]))
-                args = [self.visit(a) for a in n.args]
-                return inline_expr(cls, body[0].value, dict(zip(ps, args)), where, depth + 1)
-            return self.generic_visit(n)
-
-    import copy
-    return T().visit(copy.deepcopy(e))
-
-
-class _Raises(Exception):
-    pass
-
-
-def model_amount(chain_ast, sp, text, where):
-    """what the stored amount is for the extracted text, under a model of the stdlib conversions
-    (Decimal / int / float / str / round, Decimal.normalize / quantize / to_integral_value, str.strip ...)"""
-    import decimal
-
-    def ev(e):
-        if isinstance(e, ast.Subscript) and chain(e.value) == sp:
-            return text
-        if isinstance(e, ast.Constant) and isinstance(e.value, (int, float, str)):
-            return e.value
-        if isinstance(e, ast.Call):
-            ch = chain(e.func) or ''
-            args = [ev(a) for a in e.args]
-            if e.keywords:
-                raise AnalysisError('%s: conversion %s with keyword arguments not modelled' % (where, ch))
-            try:
-                if ch in ('Decimal', 'decimal.Decimal') and len(args) == 1:
-                    return decimal.Decimal(args[0])
-                if ch in ('int', 'float', 'str', 'round', 'abs'):
-                    return getattr(__import__('builtins'), ch)(*args)
-                if isinstance(e.func, ast.Attribute):
-                    recv = ev(e.func.value)
-                    m = e.func.attr
-                    if isinstance(recv, decimal.Decimal) and m in ('normalize', 'quantize', 'to_integral_value',
-                                                                   'to_integral', 'copy_abs'):
-                        return getattr(recv, m)(*args)
-                    if isinstance(recv, str) and m in ('strip', 'lstrip', 'rstrip', 'replace', 'lower', 'upper'):
-                        return getattr(recv, m)(*args)
-            except (ValueError, TypeError, ArithmeticError) as ex:
-                raise _Raises('%s: %s' % (type(ex).__name__, ex))
-            raise AnalysisError('%s: conversion %s not modelled' % (where, ast.unparse(e)))
-        if isinstance(e, ast.BinOp) and isinstance(e.op, (ast.Add, ast.Sub, ast.Mult, ast.Div)):
-            a, b = ev(e.left), ev(e.right)
-            try:
-                return {ast.Add: lambda: a + b, ast.Sub: lambda: a - b, ast.Mult: lambda: a * b,
-                        ast.Div: lambda: a / b}[type(e.op)]()
-            except (ValueError, TypeError, ArithmeticError) as ex:
-                raise _Raises('%s: %s' % (type(ex).__name__, ex))
-        raise AnalysisError('%s: conversion %s not modelled' % (where, ast.unparse(e)))
-    return ev(chain_ast)
-
-
-AMOUNT_PROBES = ('1', '10', '100', '1.5', '0.5', '60', '0.25', '2.50')
-
-
-def rule_amount(cx, chk, fams, handlers):
-    """the text the formatter prints for a duration amount ('{}'.format(field) = str(stored value)) must lie in the
-    amount group of the grammar and denote the number that was parsed"""
-    import decimal
-    tcls = cx.cls('timex', 'Timex')
-    chains = load_assign.chains
-    for hname, (unitgroup, table) in handlers.items():
-        for letter in sorted(table):
-            fld, amt, conv, line = table[letter]
-            v, sp, _ = chains[hname][letter]
-            node = None
-            for lst in fams.values():
-                for src, ln, tree in lst:
-                    if unitgroup in rx.group_names(tree) and rx.find_group(tree, amt):
-                        node = rx.find_group(tree, amt)[0].node
-            if node is None:
-                raise AnalysisError('no pattern has both groups %r and %r' % (unitgroup, amt))
-            where = '%s:%d Timex.%s' % (tcls.mod.rel, line, hname)
-            nf = ast.unparse(v).replace("%s['%s']" % (sp, amt), 'text')
-            bad = None
-            for probe in AMOUNT_PROBES:
-                if not rx.matches(node, probe):
-                    continue
-                try:
-                    val = model_amount(v, sp, probe, where)
-                    printed = '{}'.format(val)
-                    same = rx.matches(node, printed) and decimal.Decimal(printed) == decimal.Decimal(probe)
-                    why = 'is printed as %r' % printed
-                except _Raises as ex:
-                    same, why = False, 'raises %s' % ex
-                except decimal.InvalidOperation:
-                    same, why = False, 'is printed as %r' % printed
-                if not same and bad is None:
-                    bad = (probe, why)
-            chk.judge(bad is None, 'C14.amount', tcls.mod.path, 'Timex.%s[%s] -> %s' % (hname, letter, fld), nf,
-                      'the amount of a P..%s duration is stored as %s: the amount %r %s, which /%s/ does not accept or '
-                      'which is not the same number - the formatted TIMEX does not parse back'
-                      % ((letter, nf) + (bad or ('', '')) + (rx.unparse(node),)), line)
-
-
-def load_assign(cx):
-    """Timex.assign_properties -> {group: ('int'|'raw'|'num'|'flag', field, line) | ('handler', name, line)}
-    and the unit handlers -> {handler: (unitgroup, {letter: (field, amountgroup, conv)})}"""
-    c = cx.cls('timex', 'Timex')
-    fn = cx.meth('timex', 'Timex', 'assign_properties')
-    src_param = params_of(fn)[1] if len(params_of(fn)) > 1 else None
-    loop = None
-    for st in fn.body:
-        if isinstance(st, ast.For):
-            loop = st
-    if loop is None or src_param is None:
-        raise AnalysisError('Timex.assign_properties: expected `for key, value in source.items()`')
-    tgt = loop.target
-    if isinstance(tgt, ast.Tuple) and len(tgt.elts) == 2 and all(isinstance(e, ast.Name) for e in tgt.elts) \
-            and chain(loop.iter.func if isinstance(loop.iter, ast.Call) else None) == src_param + '.items':
-        keyv, valv = tgt.elts[0].id, tgt.elts[1].id
-    elif isinstance(tgt, ast.Name) and chain(loop.iter) == src_param:
-        keyv, valv = tgt.id, None
-    else:
-        raise AnalysisError('Timex.assign_properties: loop header not recognised')
-
-    def is_value(e):
-        if valv and isinstance(e, ast.Name) and e.id == valv:
-            return True
-        return isinstance(e, ast.Subscript) and chain(e.value) == src_param and isinstance(e.slice, ast.Name) \
-            and e.slice.id == keyv
-
-    branches = {}
-
-    def branch(test, body, line):
-        keys = []
-        if isinstance(test, ast.Compare) and len(test.ops) == 1 and isinstance(test.left, ast.Name) \
-                and test.left.id == keyv:
-            if isinstance(test.ops[0], ast.Eq) and const_str(test.comparators[0]) is not None:
-                keys = [const_str(test.comparators[0])]
-            elif isinstance(test.ops[0], ast.In) and isinstance(test.comparators[0], (ast.Tuple, ast.List, ast.Set)):
-                keys = [const_str(e) for e in test.comparators[0].elts]
-        if not keys or None in keys:
-            raise AnalysisError('%s:%d assign_properties: branch test not recognised: %s'
-                                % (c.mod.rel, line, ast.unparse(test)))
-        body = [s for s in body if not isinstance(s, ast.Pass)]
-        if len(body) != 1:
-            raise AnalysisError('%s:%d assign_properties: branch body has %d statements' % (c.mod.rel, line, len(body)))
-        s = body[0]
-        ent = None
-        if isinstance(s, ast.Assign) and len(s.targets) == 1 and isinstance(s.targets[0], ast.Attribute) \
-                and chain(s.targets[0].value) == 'self':
-            fld = s.targets[0].attr
-            v = s.value
-            if is_value(v):
-                ent = ('raw', fld, s.lineno)
-            elif isinstance(v, ast.Call) and len(v.args) == 1 and is_value(v.args[0]) and chain(v.func) == 'int':
-                ent = ('int', fld, s.lineno)
-            elif isinstance(v, ast.Call) and len(v.args) == 1 and is_value(v.args[0]) \
-                    and chain(v.func) in ('Decimal', 'float', 'decimal.Decimal'):
-                ent = ('num', fld, s.lineno)
-            elif isinstance(v, ast.Constant) and v.value is True:
-                ent = ('flag', fld, s.lineno)
-        elif isinstance(s, ast.Expr) and isinstance(s.value, ast.Call) and (chain(s.value.func) or '').startswith('self.') \
-                and len(s.value.args) == 1 and chain(s.value.args[0]) == src_param:
-            ent = ('handler', chain(s.value.func)[5:], s.lineno)
-        if ent is None:
-            raise AnalysisError('%s:%d assign_properties: branch body not recognised: %s'
-                                % (c.mod.rel, s.lineno, ast.unparse(s)))
-        for k in keys:
-            if k in branches:
-                raise AnalysisError('%s:%d assign_properties: key %r tested twice' % (c.mod.rel, line, k))
-            branches[k] = ent
-
-    def walk_if(st):
-        branch(st.test, st.body, st.lineno)
-        if len(st.orelse) == 1 and isinstance(st.orelse[0], ast.If):
-            walk_if(st.orelse[0])
-        elif st.orelse and not all(isinstance(s, ast.Pass) for s in st.orelse):
-            raise AnalysisError('%s:%d assign_properties: unexpected else branch' % (c.mod.rel, st.lineno))
-
-    n_if = 0
-    for st in loop.body:
-        if isinstance(st, ast.If):
-            walk_if(st)
-            n_if += 1
-        elif not isinstance(st, (ast.Pass, ast.Expr)):
-            raise AnalysisError('%s:%d assign_properties: statement not recognised' % (c.mod.rel, st.lineno))
-    if not n_if:
-        raise AnalysisError('Timex.assign_properties: no key dispatch found')
-
-    handlers = {}
-    chains = {}
-    for hname in sorted({e[1] for e in branches.values() if e[0] == 'handler'}):
-        if hname not in c.methods:
-            raise AnalysisError('anchor vanished: Timex.%s' % hname)
-        hf = c.methods[hname]
-        sp = params_of(hf)[1]
-        unitgroup = None
-        table = {}
-        chains[hname] = {}
-        hlocals = {}
-
-        def sub_key(e):
-            if isinstance(e, ast.Subscript) and chain(e.value) == sp:
-                return const_str(e.slice)
-            return None
-
-        def hbranch(st):
-            nonlocal unitgroup
-            t = st.test
-            ok = isinstance(t, ast.Compare) and len(t.ops) == 1 and isinstance(t.ops[0], ast.Eq) \
-                and sub_key(t.left) and const_str(t.comparators[0]) is not None
-            body = [s for s in st.body if not isinstance(s, ast.Pass)]
-            if ok and len(body) == 1 and isinstance(body[0], ast.Assign) and len(body[0].targets) == 1 \
-                    and isinstance(body[0].targets[0], ast.Attribute) and chain(body[0].targets[0].value) == 'self':
-                where = '%s:%d Timex.%s' % (c.mod.rel, body[0].lineno, hname)
-                v = inline_expr(c, body[0].value, hlocals, where)
-                keys = sorted({sub_key(n) for n in ast.walk(v) if sub_key(n)})
-                if len(keys) != 1:
-                    raise AnalysisError('%s: stored value reads %s of the extracted groups' % (where, keys or 'none'))
-                amt = keys[0]
-                if sub_key(v):
-                    conv = 'raw'
-                elif isinstance(v, ast.Call) and chain(v.func) == 'int':
-                    conv = 'int'
-                else:
-                    conv = 'num'
-                ug = sub_key(t.left)
-                if unitgroup not in (None, ug):
-                    raise AnalysisError('%s:%d %s tests two different keys' % (c.mod.rel, st.lineno, hname))
-                unitgroup = ug
-                letter = const_str(t.comparators[0])
-                table[letter] = (body[0].targets[0].attr, amt, conv, body[0].lineno)
-                chains[hname][letter] = (v, sp, amt)
-                if len(st.orelse) == 1 and isinstance(st.orelse[0], ast.If):
-                    hbranch(st.orelse[0])
-                elif st.orelse:
-                    raise AnalysisError('%s:%d %s: unexpected else' % (c.mod.rel, st.lineno, hname))
-                return
-            raise AnalysisError('%s:%d %s: branch not recognised: %s' % (c.mod.rel, st.lineno, hname, ast.unparse(st.test)))
-
-        for st in hf.body:
-            if isinstance(st, ast.If):
-                hbranch(st)
-            elif isinstance(st, ast.Assign) and len(st.targets) == 1 and isinstance(st.targets[0], ast.Name):
-                hlocals[st.targets[0].id] = st.value
-            elif not isinstance(st, (ast.Pass, ast.Expr)):
-                raise AnalysisError('%s:%d %s: statement not recognised' % (c.mod.rel, st.lineno, hname))
-        if not table:
-            raise AnalysisError('Timex.%s: no unit dispatch found' % hname)
-        handlers[hname] = (unitgroup, table)
-    load_assign.chains = chains
-    return c, fn, branches, handlers
-
-
 class Shape:
     """one field shape of the grammar"""
 
@@ -556,117 +284,730 @@ class Shape:
         return s
 
 
-def field_shapes(cx, fams, branches, handlers, report):
-    """expand every pattern into field shapes; `report(fam, src, line, group, verdict, detail, msg)` per group"""
-    shapes = []
+# ---------------------------------------------------------------------------------------------------
+# concrete interpreter for the parsing side (strings, ints, lists, dicts; whitelisted stdlib operations only).
+# It runs the *syntax trees* of TimexParsing.* and Timex.assign_* on probe inputs; nothing of /repo is imported.
+
+class PyRaise(Exception):
+    """the interpreted code raises an exception"""
+
+    def __init__(self, name, msg=''):
+        Exception.__init__(self, '%s: %s' % (name, msg) if msg else name)
+        self.name = name
+
+
+class Rec:
+    """recording stand-in for an object: attribute stores, and calls when it has no class"""
+
+    def __init__(self, cls=None):
+        self.cls = cls
+        self.attrs = {}
+        self.calls = []
+
+
+class PClass:
+    def __init__(self, c):
+        self.c = c
+
+
+class _PReturn(Exception):
+    def __init__(self, v):
+        self.v = v
+
+
+def _safe_methods():
+    import decimal
+    return {
+        str: {'find', 'rfind', 'index', 'rindex', 'split', 'rsplit', 'partition', 'rpartition', 'startswith', 'endswith',
+              'strip', 'lstrip', 'rstrip', 'count', 'replace', 'join', 'lower', 'upper', 'isdigit', 'format', 'zfill',
+              'rjust', 'ljust'},
+        list: {'append', 'extend', 'index', 'count', 'pop', 'insert'},
+        tuple: {'index', 'count'},
+        dict: {'items', 'keys', 'values', 'get', 'update', 'setdefault'},
+        set: {'add'}, frozenset: set(),
+        decimal.Decimal: {'normalize', 'quantize', 'to_integral_value', 'to_integral', 'copy_abs'},
+        int: set(), float: set(), bool: set(), type(None): set(),
+    }
+
+
+class PEv:
+    LOOP_CAP = 500
+    BUILTINS = ('int', 'str', 'len', 'float', 'range', 'list', 'tuple', 'dict', 'set', 'bool', 'min', 'max', 'abs',
+                'round', 'enumerate', 'sorted', 'reversed', 'zip')
+
+    def __init__(self, cx, mod, hooks=None, depth=0):
+        import decimal
+        self.cx = cx
+        self.mod = mod
+        self.hooks = hooks or {}
+        self.depth = depth
+        self.safe = _safe_methods()
+        self.decimal = decimal
+
+    def err(self, node, msg):
+        raise AnalysisError('%s:%d parsing interpreter: %s: %s' % (self.mod.rel, getattr(node, 'lineno', 0), msg,
+                                                                   ast.unparse(node)[:80]))
+
+    # ---- functions
+    def call_fn(self, cls, fn, args, kwargs, selfobj, node):
+        if self.depth > 10:
+            self.err(node, 'call depth')
+        ps = params_of(fn)
+        deco = {chain(d) for d in fn.decorator_list}
+        args = list(args)
+        if 'staticmethod' in deco:
+            pass
+        elif 'classmethod' in deco:
+            args = [PClass(cls)] + args
+        elif selfobj is not None:
+            args = [selfobj] + args
+        defaults = dict(zip(ps[len(ps) - len(fn.args.defaults):], fn.args.defaults))
+        env = {}
+        for i, p in enumerate(ps):
+            if i < len(args):
+                env[p] = args[i]
+            elif p in kwargs:
+                env[p] = kwargs[p]
+            elif p in defaults and isinstance(defaults[p], ast.Constant):
+                env[p] = defaults[p].value
+            else:
+                raise PyRaise('TypeError', 'missing argument %s of %s' % (p, fn.name))
+        if len(args) > len(ps) or set(kwargs) - set(ps):
+            raise PyRaise('TypeError', 'arguments of %s' % fn.name)
+        sub = PEv(self.cx, cls.mod if cls else self.mod, self.hooks, self.depth + 1)
+        try:
+            sub.block(fn.body, env)
+        except _PReturn as r:
+            return r.v
+        return None
+
+    # ---- statements
+    def store(self, tgt, val, env):
+        if isinstance(tgt, ast.Name):
+            env[tgt.id] = val
+        elif isinstance(tgt, (ast.Tuple, ast.List)):
+            try:
+                vals = list(val)
+            except TypeError:
+                raise PyRaise('TypeError', 'cannot unpack')
+            if len(vals) != len(tgt.elts):
+                raise PyRaise('ValueError', 'unpack')
+            for t, v in zip(tgt.elts, vals):
+                self.store(t, v, env)
+        elif isinstance(tgt, ast.Attribute):
+            o = self.ev(tgt.value, env)
+            if not isinstance(o, Rec):
+                self.err(tgt, 'attribute store on %s' % type(o).__name__)
+            o.attrs[tgt.attr] = val
+        elif isinstance(tgt, ast.Subscript):
+            o = self.ev(tgt.value, env)
+            k = self.ev(tgt.slice, env)
+            if not isinstance(o, (dict, list)):
+                self.err(tgt, 'item store')
+            try:
+                o[k] = val
+            except (IndexError, KeyError, TypeError) as ex:
+                raise PyRaise(type(ex).__name__)
+        else:
+            self.err(tgt, 'assignment target')
+
+    def block(self, stmts, env):
+        for st in stmts:
+            if isinstance(st, ast.Return):
+                raise _PReturn(self.ev(st.value, env) if st.value is not None else None)
+            if isinstance(st, ast.Assign):
+                v = self.ev(st.value, env)
+                for t in st.targets:
+                    self.store(t, v, env)
+            elif isinstance(st, ast.AugAssign) and isinstance(st.target, ast.Name):
+                env[st.target.id] = self.binop(st.op, env.get(st.target.id), self.ev(st.value, env), st)
+            elif isinstance(st, ast.If):
+                self.block(st.body if self.truth(self.ev(st.test, env)) else st.orelse, env)
+            elif isinstance(st, ast.For):
+                it = self.ev(st.iter, env)
+                try:
+                    items = list(it)
+                except TypeError:
+                    raise PyRaise('TypeError', 'not iterable')
+                if len(items) > self.LOOP_CAP:
+                    self.err(st, 'loop too long')
+                for v in items:
+                    self.store(st.target, v, env)
+                    self.block(st.body, env)
+                self.block(st.orelse, env)
+            elif isinstance(st, ast.While):
+                n = 0
+                while self.truth(self.ev(st.test, env)):
+                    n += 1
+                    if n > self.LOOP_CAP:
+                        raise PyRaise('NonTermination', 'loop exceeds %d iterations' % self.LOOP_CAP)
+                    self.block(st.body, env)
+            elif isinstance(st, ast.Expr):
+                if not isinstance(st.value, ast.Constant):
+                    self.ev(st.value, env)
+            elif isinstance(st, ast.Try):
+                try:
+                    self.block(st.body, env)
+                except PyRaise as ex:
+                    for h in st.handlers:
+                        names = []
+                        if h.type is None:
+                            names = None
+                        elif isinstance(h.type, ast.Tuple):
+                            names = [chain(x) for x in h.type.elts]
+                        else:
+                            names = [chain(h.type)]
+                        if names is None or ex.name in names or 'Exception' in names or 'BaseException' in names:
+                            self.block(h.body, env)
+                            break
+                    else:
+                        raise
+                else:
+                    self.block(st.orelse, env)
+                self.block(st.finalbody, env)
+            elif isinstance(st, ast.Raise):
+                raise PyRaise(chain(st.exc.func if isinstance(st.exc, ast.Call) else st.exc) or 'Exception')
+            elif isinstance(st, (ast.Pass, ast.Import, ast.ImportFrom)):
+                continue
+            else:
+                self.err(st, 'statement %s not modelled' % type(st).__name__)
+
+    # ---- expressions
+    def truth(self, v):
+        if isinstance(v, (Rec, PClass)):
+            return True
+        return bool(v)
+
+    def binop(self, op, a, b, node):
+        try:
+            if isinstance(op, ast.Add):
+                return a + b
+            if isinstance(op, ast.Sub):
+                return a - b
+            if isinstance(op, ast.Mult):
+                return a * b
+            if isinstance(op, ast.Mod):
+                return a % b
+            if isinstance(op, ast.FloorDiv):
+                return a // b
+            if isinstance(op, ast.Div):
+                return a / b
+        except (TypeError, ZeroDivisionError, ValueError, ArithmeticError) as ex:
+            raise PyRaise(type(ex).__name__, str(ex))
+        self.err(node, 'operator')
+
+    def ev(self, e, env):
+        if isinstance(e, ast.Constant):
+            return e.value
+        if isinstance(e, ast.Name):
+            if e.id in env:
+                return env[e.id]
+            if e.id in self.BUILTINS:
+                return getattr(builtins, e.id)
+            if e.id == 'Decimal':
+                return self.decimal.Decimal
+            if e.id in ('setattr', 'getattr', 'hasattr'):
+                return ('special', e.id)
+            r = self.cx.idx.resolve(self.mod, e.id)
+            if r and r[0] == 'class':
+                return PClass(r[1])
+            self.err(e, 'name not resolved')
+        if isinstance(e, ast.Tuple):
+            return tuple(self.ev(x, env) for x in e.elts)
+        if isinstance(e, ast.List):
+            return [self.ev(x, env) for x in e.elts]
+        if isinstance(e, ast.Set):
+            return {self.ev(x, env) for x in e.elts}
+        if isinstance(e, ast.Dict):
+            d = {}
+            for k, v in zip(e.keys, e.values):
+                if k is None:
+                    self.err(e, 'dict unpacking')
+                d[self.ev(k, env)] = self.ev(v, env)
+            return d
+        if isinstance(e, ast.JoinedStr):
+            out = []
+            for p in e.values:
+                if isinstance(p, ast.Constant):
+                    out.append(p.value)
+                else:
+                    if p.format_spec is not None or p.conversion != -1:
+                        self.err(e, 'format spec')
+                    out.append('{}'.format(self.ev(p.value, env)))
+            return ''.join(out)
+        if isinstance(e, ast.BinOp):
+            return self.binop(e.op, self.ev(e.left, env), self.ev(e.right, env), e)
+        if isinstance(e, ast.UnaryOp):
+            v = self.ev(e.operand, env)
+            if isinstance(e.op, ast.Not):
+                return not self.truth(v)
+            if isinstance(e.op, ast.USub):
+                return -v
+            self.err(e, 'unary operator')
+        if isinstance(e, ast.BoolOp):
+            v = None
+            for x in e.values:
+                v = self.ev(x, env)
+                if isinstance(e.op, ast.And) and not self.truth(v):
+                    return v
+                if isinstance(e.op, ast.Or) and self.truth(v):
+                    return v
+            return v
+        if isinstance(e, ast.IfExp):
+            return self.ev(e.body if self.truth(self.ev(e.test, env)) else e.orelse, env)
+        if isinstance(e, ast.Compare):
+            left = self.ev(e.left, env)
+            for op, rn in zip(e.ops, e.comparators):
+                right = self.ev(rn, env)
+                f = {ast.Lt: lambda a, b: a < b, ast.LtE: lambda a, b: a <= b, ast.Gt: lambda a, b: a > b,
+                     ast.GtE: lambda a, b: a >= b, ast.Eq: lambda a, b: a == b, ast.NotEq: lambda a, b: a != b,
+                     ast.Is: lambda a, b: a is b, ast.IsNot: lambda a, b: a is not b,
+                     ast.In: lambda a, b: a in b, ast.NotIn: lambda a, b: a not in b}[type(op)]
+                try:
+                    if not f(left, right):
+                        return False
+                except TypeError as ex:
+                    raise PyRaise('TypeError', str(ex))
+                left = right
+            return True
+        if isinstance(e, ast.Subscript):
+            b = self.ev(e.value, env)
+            if isinstance(e.slice, ast.Slice):
+                lo = self.ev(e.slice.lower, env) if e.slice.lower is not None else None
+                hi = self.ev(e.slice.upper, env) if e.slice.upper is not None else None
+                stp = self.ev(e.slice.step, env) if e.slice.step is not None else None
+                k = slice(lo, hi, stp)
+            else:
+                k = self.ev(e.slice, env)
+            if not isinstance(b, (str, list, tuple, dict)):
+                self.err(e, 'subscript of %s' % type(b).__name__)
+            try:
+                return b[k]
+            except (IndexError, KeyError, TypeError) as ex:
+                raise PyRaise(type(ex).__name__, str(ex))
+        if isinstance(e, ast.Attribute):
+            b = self.ev(e.value, env)
+            return self.attr(b, e.attr, e)
+        if isinstance(e, ast.Call):
+            return self.call(e, env)
+        if isinstance(e, ast.ListComp) and len(e.generators) == 1 and not e.generators[0].is_async:
+            g = e.generators[0]
+            out = []
+            for v in list(self.ev(g.iter, env)):
+                env2 = dict(env)
+                self.store(g.target, v, env2)
+                if all(self.truth(self.ev(c, env2)) for c in g.ifs):
+                    out.append(self.ev(e.elt, env2))
+            return out
+        self.err(e, 'expression %s not modelled' % type(e).__name__)
+
+    def attr(self, b, name, node):
+        if isinstance(b, Rec):
+            if name in b.attrs:
+                return b.attrs[name]
+            if b.cls is not None and name in b.cls.methods:
+                return ('func', b.cls, b.cls.methods[name], b)
+            if b.cls is None:
+                return ('reccall', b, name)
+            if b.cls is not None:
+                k, v = self.cx.idx.class_attr(b.cls, name)
+                if v is not None:
+                    return self.class_const(v, node)
+            raise PyRaise('AttributeError', name)
+        if isinstance(b, PClass):
+            if name in b.c.methods:
+                return ('func', b.c, b.c.methods[name], None)
+            k, v = self.cx.idx.class_attr(b.c, name)
+            if v is not None:
+                return self.class_const(v, node)
+            raise PyRaise('AttributeError', name)
+        for t, names in self.safe.items():
+            if type(b) is t:
+                if name in names:
+                    return getattr(b, name)
+                self.err(node, 'method %s.%s not whitelisted' % (t.__name__, name))
+        self.err(node, 'attribute of %s' % type(b).__name__)
+
+    def class_const(self, v, node):
+        try:
+            return ast.literal_eval(v)       # a dict literal with a repeated key keeps the last value, as Python does
+        except (ValueError, SyntaxError):
+            self.err(node, 'class attribute is not a literal')
+
+    def call(self, e, env):
+        ch = chain(e.func) or ''
+        args = []
+        for a in e.args:
+            if isinstance(a, ast.Starred):
+                self.err(e, 'star arguments')
+            args.append(self.ev(a, env))
+        kwargs = {}
+        for k in e.keywords:
+            if k.arg is None:
+                self.err(e, '** arguments')
+            kwargs[k.arg] = self.ev(k.value, env)
+        for suffix, hook in self.hooks.items():
+            if ch == suffix or ch.endswith('.' + suffix):
+                return hook(args, kwargs)
+        f = self.ev(e.func, env)
+        if isinstance(f, tuple) and f[0] == 'func':
+            return self.call_fn(f[1], f[2], args, kwargs, f[3], e)
+        if isinstance(f, tuple) and f[0] == 'reccall':
+            f[1].calls.append((f[2], args))
+            return None
+        if isinstance(f, tuple) and f[0] == 'special':
+            if not args or not isinstance(args[0], Rec) or len(args) < 2 or not isinstance(args[1], str):
+                self.err(e, '%s on something else than the object' % f[1])
+            if f[1] == 'setattr' and len(args) == 3:
+                args[0].attrs[args[1]] = args[2]
+                return None
+            if f[1] == 'hasattr':
+                return args[1] in args[0].attrs
+            if f[1] == 'getattr':
+                if args[1] in args[0].attrs:
+                    return args[0].attrs[args[1]]
+                if len(args) == 3:
+                    return args[2]
+                raise PyRaise('AttributeError', args[1])
+            self.err(e, f[1])
+        if isinstance(f, PClass):
+            self.err(e, 'construction of %s' % f.c.name)
+        if callable(f):
+            try:
+                r = f(*args, **kwargs)
+            except Exception as ex:       # noqa - any exception of a whitelisted stdlib operation is the program's
+                raise PyRaise(type(ex).__name__, str(ex))
+            if isinstance(r, (range, enumerate, zip, reversed)) or type(r).__name__ in ('dict_items', 'dict_keys',
+                                                                                       'dict_values'):
+                r = list(r)
+            return r
+        self.err(e, 'call not modelled')
+
+
+AMOUNT_PROBES = ('1', '10', '100', '1.5', '0.5', '60', '0.25', '2.50')
+# ISO 8601 period designators (reference): date part after P, time part after PT
+ISO_UNITS = {'P': {'Y': 'years', 'M': 'months', 'W': 'weeks', 'D': 'days'},
+             'PT': {'H': 'hours', 'M': 'minutes', 'S': 'seconds'}}
+
+
+def group_probes(node, i, what):
+    """representative texts of a named group: ('alts', all alternatives) | ('digits', [one text]) | ('amount', probes)"""
+    if digits_only(node):
+        for w in range(1, 7):
+            t = str(i + 2).rjust(w, '0')
+            if rx.matches(node, t):
+                return 'digits', [t]
+        lang = finite_lang(node)
+        if lang:
+            return 'digits', [sorted(lang)[min(i + 2, len(lang) - 1)]]
+        raise AnalysisError('%s: no representative for a digit group' % what)
+    lang = finite_lang(node, 64)
+    if lang is not None:
+        return 'alts', sorted(lang)
+    probes = [p for p in AMOUNT_PROBES if rx.matches(node, p)]
+    if not probes:
+        raise AnalysisError('%s: group %s accepts none of the probe amounts' % (what, rx.unparse(node)))
+    return 'amount', probes
+
+
+def regex_shapes(fams):
+    """(fam, src, line, tree, token sequence) for every shape of every pattern"""
+    out = []
     for fam, lst in fams.items():
         for src, line, tree in lst:
             what = "TimexRegex['%s'] %s" % (fam, src)
             for seq in expand(tree, what):
                 seq = merge_lits(seq)
-                gnames = [t.name for t in seq if t.kind == 'grp']
-                if len(set(gnames)) != len(gnames):
+                names = [t.name for t in seq if t.kind == 'grp']
+                if len(set(names)) != len(names):
                     raise AnalysisError('%s: a group name occurs twice in one shape' % what)
-                # unit handlers present in this shape
-                unit = {}
-                for g in gnames:
-                    b = branches.get(g)
-                    if b and b[0] == 'handler':
-                        ug, table = handlers[b[1]]
-                        if ug != g:
-                            report(fam, src, line, g, False, 'handler %s reads %r' % (b[1], ug),
-                                   'group %r dispatches to %s, which tests source[%r] instead' % (g, b[1], ug))
-                            continue
-                        unit[g] = (b[1], table)
-                consumed = {}
-                for g, (hn, table) in unit.items():
-                    for letter, (fld, amt, conv, ln) in table.items():
-                        consumed.setdefault(amt, []).append(hn)
-                variants = [([], set())]
-                broken = False
-                for t in seq:
-                    if t.kind != 'grp':
-                        variants = [(v + [t], f) for v, f in variants]
-                        continue
-                    g = t.name
-                    b = branches.get(g)
-                    if b is None:
-                        if g in consumed:
-                            # amount group: becomes a field token once the unit letter is known (below)
-                            variants = [(v + [Tok('grp', name=g, node=t.node)], f) for v, f in variants]
-                            report(fam, src, line, g, True, 'consumed by ' + ','.join(sorted(set(consumed[g]))), '')
-                            continue
-                        report(fam, src, line, g, False, 'no branch',
-                               'named group %r has no branch in Timex.assign_properties and no unit handler reads it: '
-                               'the captured text is dropped' % g)
-                        broken = True
-                        continue
-                    kind, fld, ln = b
-                    if kind == 'handler':
-                        if g not in unit:
-                            broken = True
-                            continue
-                        hn, table = unit[g]
-                        lang = finite_lang(t.node, 200)
-                        if lang is None:
-                            raise AnalysisError('%s: unit group %r has no finite language' % (what, g))
-                        missing = sorted(x for x in lang if x not in table)
-                        report(fam, src, line, g, not missing, 'letters %s -> %s' % (
-                            ','.join(sorted(lang)), ','.join('%s:%s' % (k, table[k][0]) for k in sorted(table))),
-                            'unit letters %s of group %r have no branch in Timex.%s' % (missing, g, hn))
-                        nv = []
-                        for letter in sorted(lang):
-                            if letter not in table:
-                                continue
-                            for v, f in variants:
-                                nv.append((v + [Tok('lit', text=letter), ('unit', table[letter])], f))
-                        variants = nv
-                        continue
-                    if kind == 'flag':
-                        lang = finite_lang(t.node, 50)
-                        if lang is None or len(lang) != 1:
-                            raise AnalysisError('%s: flag group %r is not a single literal' % (what, g))
-                        variants = [(v + [Tok('lit', text=next(iter(lang)))], f | {fld}) for v, f in variants]
-                        report(fam, src, line, g, True, 'flag -> %s' % fld, '')
-                        continue
-                    okc = True
-                    why = ''
-                    if kind == 'int' and not digits_only(t.node):
-                        okc, why = False, 'int() applied to a group that is not all digits'
-                    if kind == 'raw' and digits_only(t.node):
-                        okc, why = False, 'digit group stored without int(): the field holds a string, ' \
-                                          'comparisons with numbers and == 0 tests fail'
-                    report(fam, src, line, g, okc, '%s -> %s' % (kind, fld),
-                           'group %r: %s' % (g, why))
-                    variants = [(v + [Tok('fld', name=fld, node=t.node, conv=kind)], f) for v, f in variants]
-                if broken:
+                out.append((fam, src, line, tree, seq))
+    return out
+
+
+def derived(text, v):
+    """does stored value v come from the matched text?  -> conversion name or None"""
+    import decimal
+    if isinstance(v, bool) or v is None:
+        return None
+    if isinstance(v, str):
+        return 'raw' if v == text else None
+    if isinstance(v, int):
+        return 'int' if text.isdigit() and int(text) == v else None
+    if isinstance(v, (decimal.Decimal, float)):
+        try:
+            return 'num' if decimal.Decimal(text) == decimal.Decimal(str(v)) else None
+        except decimal.InvalidOperation:
+            return None
+    return None
+
+
+def tabulate_assign(cx, chk, fams):
+    """run Timex.assign_properties (syntax tree) on the group dictionary of every shape and every representative text;
+    returns the field shapes and reports C14.groups / C14.amount / C14.units"""
+    import decimal
+    tcls = cx.cls('timex', 'Timex')
+    fn = cx.meth('timex', 'Timex', 'assign_properties')
+    init = cx.meth('timex', 'Timex', '__init__')
+    fields = {st.targets[0].attr for st in init.body if isinstance(st, ast.Assign) and len(st.targets) == 1
+              and isinstance(st.targets[0], ast.Attribute) and chain(st.targets[0].value) == 'self'}
+    rpath = cx.mods['timex_regex'].path
+    shapes = []
+    verdicts = {}          # (fam, src, group) -> [ok, detail, msg, line]
+    amount = {}            # (fam, src, selector text) -> [ok, detail, msg, line, field]
+
+    def note(fam, src, line, group, ok, detail, msg):
+        cur = verdicts.setdefault((fam, src, group), [True, detail, '', line])
+        if not ok and cur[0]:
+            cur[0], cur[1], cur[2] = False, detail, msg
+        elif ok and cur[0] and detail not in cur[1].split(' | ') and len(cur[1]) < 200:
+            cur[1] = cur[1] + ' | ' + detail if cur[1] != detail else cur[1]
+
+    for fam, src, line, tree, seq in regex_shapes(fams):
+        what = "TimexRegex['%s'] %s" % (fam, src)
+        allgroups = rx.group_names(tree)
+        gtoks = [t for t in seq if t.kind == 'grp']
+        kinds = {}
+        plists = []
+        for i, t in enumerate(gtoks):
+            k, probes = group_probes(t.node, i, what)
+            kinds[t.name] = k
+            plists.append(probes)
+        runs = []
+        for combo in itertools.product(*plists):
+            texts = dict(zip([t.name for t in gtoks], combo))
+            source = {}
+            for g in allgroups:                      # re.Match.groupdict(): unmatched optional groups are None
+                source[g] = texts.get(g)
+            rec = Rec(tcls)
+            try:
+                PEv(cx, tcls.mod).call_fn(tcls, fn, [source], {}, rec, fn)
+                err = None
+            except PyRaise as ex:
+                err = str(ex)
+            runs.append((texts, rec.attrs, err))
+        # which alternative groups act as selectors (their value decides where the rest is stored)
+        selectors = set()
+        for t in gtoks:
+            if kinds[t.name] != 'alts':
+                continue
+            by_rest = {}
+            for texts, attrs, err in runs:
+                rest = tuple(sorted((k, v) for k, v in texts.items() if k != t.name))
+                by_rest.setdefault(rest, set()).add(frozenset(attrs))
+            if any(len(s) > 1 for s in by_rest.values()):
+                selectors.add(t.name)
+        for texts, attrs, err in runs:
+            if err is not None:
+                note(fam, src, line, '<all groups>', False, 'raises',
+                     'Timex.assign_properties raises %s for the group dictionary %r of /%s/' % (
+                         err, {g: texts.get(g) for g in allgroups}, src))
+                continue
+            toks, flags, ok_shape = [], set(), True
+            sel_text = [texts[t.name] for t in gtoks if t.name in selectors]
+            used_fields = {}
+            for t in seq:
+                if t.kind != 'grp':
+                    toks.append(t)
                     continue
-                for v, f in variants:
-                    # resolve amount groups with the unit seen in this variant
-                    units = [x[1] for x in v if isinstance(x, tuple)]
-                    toks = []
-                    bad = False
-                    for x in v:
-                        if isinstance(x, tuple):
-                            continue
-                        if x.kind == 'grp':
-                            tgt = [u for u in units if u[1] == x.name]
-                            if len(tgt) != 1:
-                                bad = True
-                                break
-                            toks.append(Tok('fld', name=tgt[0][0], node=x.node, conv=tgt[0][2]))
-                        else:
-                            toks.append(x)
-                    if bad:
+                g, text = t.name, texts[t.name]
+                hits = [(f, derived(text, v)) for f, v in attrs.items() if derived(text, v)]
+                lits = finite_lang(t.node, 4)
+                if not hits and kinds[g] == 'alts' and lits is not None and len(lits) == 1:
+                    fl = [f for f, v in attrs.items() if v is True]
+                    if len(fl) == 1:
+                        toks.append(Tok('lit', text=text))
+                        flags.add(fl[0])
+                        note(fam, src, line, g, fl[0] in fields, 'flag -> %s' % fl[0],
+                             'group %r sets %s, which Timex.__init__ does not define' % (g, fl[0]))
                         continue
-                    toks = merge_lits(toks)
-                    names = [t.name for t in toks if t.kind == 'fld']
-                    if len(set(names)) != len(names):
-                        report(fam, src, line, ','.join(names), False, 'two groups -> one field',
-                               'two groups of one pattern are stored in the same field')
-                        continue
-                    shapes.append(Shape(fam, src, line, toks, f, gnames))
-    return shapes
+                if not hits and g in selectors:
+                    toks.append(Tok('lit', text=text))
+                    tgt = sorted(attrs)
+                    note(fam, src, line, g, True, '%s selects %s' % (text, ','.join(tgt) or '-'), '')
+                    continue
+                if not hits:
+                    ok_shape = False
+                    note(fam, src, line, g, False, 'dropped' + (' for ' + '/'.join(sel_text) if sel_text else ''),
+                         'the text captured by group %r (%r%s) is stored in no field by Timex.assign_properties (stored: '
+                         '%s): the value is lost when such a TIMEX is parsed'
+                         % (g, text, ', with ' + '/'.join(sel_text) if sel_text else '',
+                            ', '.join('%s=%r' % kv for kv in sorted(attrs.items(), key=lambda kv: kv[0])) or 'nothing'))
+                    continue
+                if len(hits) > 1:
+                    ok_shape = False
+                    note(fam, src, line, g, False, 'stored twice: ' + ','.join(f for f, _ in hits),
+                         'group %r is stored in several fields: %s' % (g, ', '.join(f for f, _ in hits)))
+                    continue
+                f, conv = hits[0]
+                okc, why = True, ''
+                if f not in fields:
+                    okc, why = False, 'it is stored in attribute %r, which Timex.__init__ does not define (no template ' \
+                                      'reads it)' % f
+                elif conv == 'raw' and kinds[g] == 'digits':
+                    okc, why = False, 'the digits are stored without int(): the field holds a string, == 0 tests and ' \
+                                      'arithmetic on it fail'
+                elif f in used_fields:
+                    okc, why = False, 'groups %r and %r are stored in the same field %s' % (used_fields[f], g, f)
+                used_fields[f] = g
+                note(fam, src, line, g, okc, '%s -> %s' % (conv, f), 'group %r: %s' % (g, why))
+                if not okc:
+                    ok_shape = False
+                    continue
+                toks.append(Tok('fld', name=f, node=t.node, conv=conv))
+                if kinds[g] == 'amount':
+                    key = (fam, src, '/'.join(sel_text) or '-')
+                    v = attrs[f]
+                    printed = '{}'.format(v)
+                    try:
+                        same = rx.matches(t.node, printed) and decimal.Decimal(printed) == decimal.Decimal(text)
+                    except decimal.InvalidOperation:
+                        same = False
+                    cur = amount.setdefault(key, [True, type(v).__name__, '', line, f])
+                    if not same and cur[0]:
+                        cur[0] = False
+                        cur[1] = '%s: %s -> %s' % (type(v).__name__, text, printed)
+                        cur[2] = ('the amount %r is stored in %s as %r, which str() prints as %r: /%s/ does not accept that '
+                                  'text or it is another number - the formatted TIMEX does not parse back'
+                                  % (text, f, v, printed, rx.unparse(t.node)))
+            if ok_shape:
+                shapes.append(Shape(fam, src, line, merge_lits(toks), flags, [t.name for t in gtoks]))
+    for (fam, src, group), (ok, detail, msg, line) in verdicts.items():
+        construct = "TimexRegex['%s'] /%s/ group %s" % (fam, src, group)
+        if ok:
+            chk.ok('C14.groups', rpath, construct, detail, line)
+        else:
+            chk.bad('C14.groups', rpath, construct, detail, msg, line)
+    for (fam, src, sel), (ok, detail, msg, line, f) in amount.items():
+        construct = "TimexRegex['%s'] /%s/ unit %s -> %s" % (fam, src, sel, f)
+        if ok:
+            chk.ok('C14.amount', rpath, construct, detail, line)
+        else:
+            chk.bad('C14.amount', rpath, construct, detail, msg, line)
+    # ISO designators: P<n>{Y,M,W,D} and PT<n>{H,M,S}
+    seen = set()
+    for s in shapes:
+        t = s.toks
+        if len(t) == 3 and t[0].kind == 'lit' and t[1].kind == 'fld' and t[2].kind == 'lit' and t[1].conv in ('num', 'int') \
+                and t[0].text in ISO_UNITS:
+            key = (t[0].text, t[2].text)
+            if key in seen:
+                continue
+            seen.add(key)
+            want = ISO_UNITS[t[0].text].get(t[2].text)
+            construct = 'duration %s<n>%s' % key
+            if want is None:
+                chk.exempt('C14.units', rpath, construct, 'designator outside the ISO 8601 reference table', t[1].name, s.line)
+            else:
+                chk.judge(t[1].name == want, 'C14.units', rpath, construct, '-> ' + t[1].name,
+                          'a %s<n>%s duration is stored in %s; ISO 8601 (and TimexValue.duration_value, which converts the '
+                          'field to seconds) read it as %s' % (key + (t[1].name, want)), s.line)
+    # de-duplicate shapes (many probe amounts give the same shape)
+    uniq = {}
+    for s in shapes:
+        uniq.setdefault((s.fam, s.src, s.nf()), s)
+    return list(uniq.values())
+
+
+def instantiate(seq, index_base=0):
+    """one concrete string per alternative choice of a regex shape (digits / amounts by their first representative)"""
+    outs = ['']
+    gi = 0
+    for t in seq:
+        if t.kind == 'lit':
+            outs = [o + t.text for o in outs]
+        elif t.kind == 'grp':
+            k, probes = group_probes(t.node, gi, 'probe')
+            gi += 1
+            if k != 'alts':
+                probes = probes[:1]
+            outs = [o + p for o in outs for p in probes]
+        else:
+            raise AnalysisError('anonymous character class in a pattern: no probe string')
+    return outs
+
+
+def rule_split(cx, chk, fams):
+    """run TimexParsing.parse_string (syntax tree) on canonical probe strings: every shape alone, and every date shape
+    followed by every time shape; the pieces handed to TimexRegex.extract must be exactly the components"""
+    pcls = cx.cls('timex_parsing', 'TimexParsing')
+    ps = cx.meth('timex_parsing', 'TimexParsing', 'parse_string')
+    path = pcls.mod.path
+    probes = []          # (word, [(family, component)])
+    by_fam = {}
+    for fam, src, line, tree, seq in regex_shapes(fams):
+        for w in instantiate(seq):
+            by_fam.setdefault(fam, []).append(w)
+            probes.append((w, [(fam, w)]))
+    if 'date' not in by_fam or 'time' not in by_fam:
+        raise AnalysisError("anchor vanished: TimexRegex families 'date' and 'time'")
+    for d in by_fam['date']:
+        for t in by_fam['time']:
+            probes.append((d + t, [('date', d), ('time', t)]))
+    n_bad = 0
+    for w, want in probes:
+        log = []
+
+        def extract(args, kwargs, log=log):
+            if len(args) != 3 or not isinstance(args[0], str) or not isinstance(args[2], dict):
+                raise AnalysisError('TimexRegex.extract called with unexpected arguments')
+            if not isinstance(args[1], str):
+                raise PyRaise('TypeError', 'extract on %r' % (args[1],))
+            if args[0] not in fams:
+                raise PyRaise('KeyError', args[0])
+            hit = any(rx.matches(tree, args[1]) for _, _, tree in fams[args[0]])
+            log.append((args[0], args[1], id(args[2])))
+            if hit:
+                args[2]['#' + args[0]] = args[1]
+            return hit
+        obj = Rec(None)
+        try:
+            PEv(cx, pcls.mod, {'TimexRegex.extract': extract}).call_fn(pcls, ps, [w, obj], {}, None, ps)
+            err = None
+        except PyRaise as ex:
+            err = str(ex)
+        got = sorted((f, p) for f, p, _ in log if p != '')
+        handed = {k[1:]: v for name, a in obj.calls if name == 'assign_properties' and a and isinstance(a[0], dict)
+                  for k, v in a[0].items()}
+        construct = 'TimexParsing.parse_string(%r)' % w
+        wantd = dict(want)
+        if err is not None:
+            ok, detail, msg = False, 'raises', 'parse_string(%r) raises %s' % (w, err)
+        elif got != sorted(want):
+            ok, detail = False, 'pieces ' + ', '.join('%s:%r' % x for x in got)
+            msg = ('parse_string(%r) hands the pieces [%s] to the regex tables; the components of this TIMEX are [%s] - '
+                   'a piece that is cut differently matches no pattern and its fields are lost'
+                   % (w, ', '.join('%s:%r' % x for x in got), ', '.join('%s:%r' % x for x in sorted(want))))
+        elif handed != wantd:
+            ok, detail = False, 'handed on ' + ', '.join('%s:%r' % x for x in sorted(handed.items()))
+            msg = ('parse_string(%r): the groups extracted for [%s] are not all handed to assign_properties (handed on: '
+                   '[%s])' % (w, ', '.join(sorted(wantd)), ', '.join(sorted(handed))))
+        else:
+            ok, detail, msg = True, 'pieces = components', ''
+        if not ok:
+            n_bad += 1
+            if n_bad > 12:
+                continue                      # keep the report readable; the count is in the summary line
+        chk.judge(ok, 'C14.split', path, construct, detail, msg, ps.lineno)
+    # the constant emitted for the present reference must set a field when parsed
+    fmt = cx.meth('timex_format', 'TimexFormat', 'format')
+    for w in sorted({const_str(r.value) for r in ast.walk(fmt) if isinstance(r, ast.Return) and const_str(r.value)}):
+        obj = Rec(None)
+        try:
+            PEv(cx, pcls.mod, {'TimexRegex.extract': lambda a, k: False}).call_fn(pcls, ps, [w, obj], {}, None, ps)
+            sets = sorted(k for k, v in obj.attrs.items() if v is True)
+        except PyRaise as ex:
+            sets = []
+        chk.judge(bool(sets), 'C14.split', path, 'TimexParsing.parse_string(%r)' % w, 'sets ' + (','.join(sets) or 'nothing'),
+                  'TimexFormat.format returns the constant %r, but parsing it sets no field to True' % w, ps.lineno)
+    chk.extra['parse_probes'] = len(probes)
+
+
+def rule_groups_and_shapes(cx, chk):
+    rcls, fams = load_patterns(cx)
+    chk.extra['patterns'] = sum(len(v) for v in fams.values())
+    shapes = tabulate_assign(cx, chk, fams)
+    return rcls, fams, shapes
 
 
 # ---------------------------------------------------------------------------------------------------
@@ -894,26 +1235,6 @@ def align(tpl_toks, shape):
 
 # ---------------------------------------------------------------------------------------------------
 # rules
-
-def rule_groups_and_shapes(cx, chk):
-    rcls, fams = load_patterns(cx)
-    tcls, afn, branches, handlers = load_assign(cx)
-    chk.extra['patterns'] = sum(len(v) for v in fams.values())
-
-    def report(fam, src, line, group, ok, detail, msg):
-        construct = "TimexRegex['%s'] /%s/ group %s" % (fam, src, group)
-        if ok:
-            chk.ok('C14.groups', rcls.mod.path, construct, detail, line)
-        else:
-            chk.bad('C14.groups', rcls.mod.path, construct, detail, msg, line)
-
-    shapes = field_shapes(cx, fams, branches, handlers, report)
-    # branches never fed by any group: dead wiring is only an observation
-    allgroups = {g for lst in fams.values() for _, _, t in lst for g in rx.group_names(t)}
-    for k in sorted(set(branches) - allgroups):
-        chk.observe('Timex.assign_properties has a branch for %r but no TimexRegex pattern has such a group' % k)
-    return rcls, fams, branches, handlers, shapes
-
 
 def rule_templates(cx, chk, shapes):
     fcls, templates, fnames = load_templates(cx)
@@ -1188,69 +1509,6 @@ def rule_dispatch(cx, chk, fams, templates):
     for fam, lst in fams.items():
         for src, line, tree in lst:
             route(tree, fam, "TimexRegex['%s'] /%s/" % (fam, src), line, 'a string matching /%s/' % src)
-
-    # the constant string emitted for the present reference must be recognised by parse_string
-    fmt = cx.meth('timex_format', 'TimexFormat', 'format')
-    consts = [const_str(r.value) for r in ast.walk(fmt) if isinstance(r, ast.Return) and const_str(r.value)]
-    for w in sorted(set(consts)):
-        hit = None
-        for test, body in arms:
-            if test is not None and isinstance(test, ast.Compare) and const_str(test.comparators[0]) == w \
-                    and chain(test.left) == sparam:
-                hit = body
-        sets_now = hit is not None and any(
-            isinstance(s, ast.Assign) and isinstance(s.targets[0], ast.Attribute) and chain(s.targets[0].value) == oparam
-            for s in hit)
-        chk.judge(sets_now, 'C14.route', path, 'TimexFormat.format constant %r' % w, 'recognised by parse_string',
-                  'TimexFormat.format returns the constant %r but parse_string has no arm `%s == %r` that sets a field'
-                  % (w, sparam, w), fmt.lineno)
-
-    # split of date and time at a marker character: s[0:i] -> family A, s[i:] -> family B, i = s.find(<marker>)
-    split_found = 0
-    for name, fn in pcls.methods.items():
-        sp = params_of(fn)[0] if params_of(fn) else None
-        marker = {}
-        for a in ast.walk(fn):
-            if isinstance(a, ast.Assign) and len(a.targets) == 1 and isinstance(a.targets[0], ast.Name) \
-                    and isinstance(a.value, ast.Call) and chain(a.value.func) in (sp + '.find', sp + '.index') \
-                    and a.value.args and const_str(a.value.args[0]):
-                marker[a.targets[0].id] = const_str(a.value.args[0])
-        if not marker:
-            continue
-        for fam, c in direct[name]:
-            arg = c.args[1] if len(c.args) > 1 else None
-            if not isinstance(arg, ast.Subscript) or not isinstance(arg.slice, ast.Slice) or chain(arg.value) != sp:
-                # whole string handed over: only reached when the marker is absent or handled elsewhere
-                continue
-            lo, hi = arg.slice.lower, arg.slice.upper
-            lo_zero = lo is None or (isinstance(lo, ast.Constant) and lo.value == 0)
-            if lo_zero and isinstance(hi, ast.Name) and hi.id in marker:
-                mk = marker[hi.id]
-                split_found += 1
-                for src, line, tree in fams.get(fam, []):
-                    chk.judge(not may_contain(tree, mk), 'C14.route', path,
-                              "TimexParsing.%s prefix before %r: TimexRegex['%s'] /%s/" % (name, mk, fam, src),
-                              'marker-free',
-                              "the '%s' part is cut at the first %r, but /%s/ can itself contain %r: such strings are "
-                              'split in the wrong place' % (fam, mk, src, mk), line)
-            elif isinstance(lo, ast.Name) and lo.id in marker and hi is None:
-                mk = marker[lo.id]
-                split_found += 1
-                for src, line, tree in fams.get(fam, []):
-                    f, nul = first_chars(tree)
-                    chk.judge(f == {mk} and not nul, 'C14.route', path,
-                              "TimexParsing.%s suffix from %r: TimexRegex['%s'] /%s/" % (name, mk, fam, src),
-                              'starts with marker',
-                              "the '%s' part starts at the first %r, but /%s/ does not start with %r" % (fam, mk, src, mk),
-                              line)
-            else:
-                raise AnalysisError('%s:%d TimexParsing.%s: slice handed to extract not modelled: %s'
-                                    % (pcls.mod.rel, c.lineno, name, ast.unparse(arg)))
-    multi = [name for name in direct if len({f for f, _ in direct[name]}) > 1]
-    if multi and split_found < 2:
-        # one method feeds two families from one string, so the string must be cut somewhere
-        raise AnalysisError('TimexParsing: the date/time split idiom (i = s.find(<marker>); extract(A, s[0:i]); '
-                            'extract(B, s[i:])) was not recognised')
 
 
 def rule_wiring(cx, chk):
@@ -1543,8 +1801,9 @@ def run(chk):
                        'extracted from the AST and compared token by token in both directions; parse dispatch, '
                        'constructor wiring, the shared Time object behind hour/minute/second and truthiness tests on '
                        'zero-admitting fields are checked structurally')
-    chk.rule('C14.groups', 'every named group of every TimexRegex pattern is consumed by Timex.assign_properties '
-                           '(own branch with a conversion that fits the group, or read by the unit handler)', floor=20)
+    chk.rule('C14.groups', 'Timex.assign_properties, run on the group dictionary of every pattern shape, stores every '
+                           'named group in a field Timex defines (int for digit groups) or uses it as unit selector; it '
+                           'never raises', floor=20)
     chk.rule('C14.template', 'template in grammar: every TimexFormat.format_* template is token-wise a shape of some '
                              'TimexRegex pattern (literals equal, field = group field, padded rendering in the group '
                              'language)', floor=12)
@@ -1554,22 +1813,26 @@ def run(chk):
                              'format_* helper is used by format', floor=5)
     chk.rule('C14.dispatch', 'TimexParsing extracts only existing families, hands the result to assign_properties and '
                              'parse_string reaches every family', floor=6)
-    chk.rule('C14.route', 'routing by first/last character and the split at the time marker are consistent with the '
-                          'patterns of the family that is extracted', floor=20)
+    chk.rule('C14.route', 'routing of parse_string by first/last character is consistent with the patterns of the '
+                          'family that each arm extracts (three-valued, all strings of a pattern)', floor=15)
     chk.rule('C14.wiring', 'Timex.__init__ and Timex.clone store every field under its own name', floor=30)
     chk.rule('C14.from', 'from_date / from_date_time / from_time pass year,month,day,hour,minute,second homonymously',
              floor=12)
     chk.rule('C14.timeprop', 'hour/minute/second getters and setters address the same component of one shared Time '
                              'object, other components default to 0; fixed_format_number left-pads with 0', floor=15)
     chk.rule('C14.amount', 'the stored duration amount, as str() prints it, lies in the amount group and denotes the '
-                           'parsed number (conversion chain followed through locals and single-return helpers, stdlib '
-                           'conversions modelled, probe amounts)', floor=5)
+                           'parsed number (assign_properties run on probe amounts for every unit letter)', floor=5)
+    chk.rule('C14.units', 'ISO 8601 designators: P<n>Y/M/W/D are stored in years/months/weeks/days, PT<n>H/M/S in '
+                          'hours/minutes/seconds', floor=7)
+    chk.rule('C14.split', 'parse_string, run on canonical probe strings (every shape alone, every date shape followed by '
+                          'every time shape, every part-of-day code), hands exactly the components to the regex tables and '
+                          'their groups to assign_properties', floor=100)
     chk.rule('C14.falsy0', 'no truthiness test on hour/minute/second in TimexInference / TimexFormat', floor=3,
              control=True)
     chk.assume('digit groups hold valid calendar values (the checker does not bound month to 12 etc.); only hour, '
                'minute and second can legitimately be 0')
     cx = Ctx(chk)
-    rcls, fams, branches, handlers, shapes = rule_groups_and_shapes(cx, chk)
+    rcls, fams, shapes = rule_groups_and_shapes(cx, chk)
     fcls, templates, fnames = rule_templates(cx, chk, shapes)
     rule_reach(cx, chk, fcls, fnames)
     rule_dispatch(cx, chk, fams, templates)
@@ -1578,7 +1841,7 @@ def run(chk):
     rule_falsy_zero(cx, chk, shapes)
     chk.extra['shapes'] = len(shapes)
     chk.extra['templates'] = len(templates)
-    rule_amount(cx, chk, fams, handlers)
+    rule_split(cx, chk, fams)
     chk._c14 = (cx, fams, shapes, templates)
     rule_roundtrip(chk)
 
